@@ -116,7 +116,9 @@ def step (line : String) : String :=
   | _ => "bad-op"
 
 def stepLine (line : String) : String :=
-  if line.startsWith "query " then opQuery (line.drop 6).toString else step line
+  if line.startsWith "query " then opQuery (line.drop 6).toString
+  else if line.startsWith "header " then opHeader (line.drop 7).toString
+  else step line
 
 partial def loop (h : IO.FS.Stream) (out : IO.FS.Stream) : IO Unit := do
   let line ← h.getLine
